@@ -33,6 +33,8 @@ INVARIANT NoDuplicates
 INVARIANT Owned
 INVARIANT MembersOwned
 INVARIANT NameClashFree
+INVARIANT AddThenDeleteRestores
+INVARIANT DeleteThenAddReadmits
 PROPERTY ForeignIndexRefused
 PROPERTY RejectedIsNoop
 PROPERTY OrderKept
